@@ -48,15 +48,24 @@ def hexVal (c : UInt8) : Option Nat :=
   else if 97 ≤ c && c ≤ 102 then some (c.toNat - 87)
   else none
 
-/-- `text.get(3..5)` then `u32::from_str_radix(_, 16)` then `as u8` (SentencePiece BYTE pieces): the two
-    bytes at offsets 3 and 4 must be hex digits (the repaired converter; a `+` sign is also accepted by
-    `from_str_radix` for the first digit and is not modelled — the harness never generates it as valid). -/
+/-- Two ASCII hexadecimal digits (after the F23 repair; `from_str_radix` alone also accepted a `+` sign,
+    `hexPairOld`). -/
+def hexPair (h l : UInt8) : Option Nat :=
+  match hexVal h, hexVal l with
+  | some a, some b => some (16 * a + b)
+  | _, _ => none
+
+def hexPairOld (h l : UInt8) : Option Nat :=
+  match hexVal h, hexVal l with
+  | some a, some b => some (16 * a + b)
+  | none, some b => if h == 43 then some b else none
+  | _, _ => none
+
+/-- `text.get(3..5)` then `u32::from_str_radix(_, 16)` then `as u8` (SentencePiece BYTE pieces, the repaired
+    converter): the two bytes at offsets 3 and 4 are read as a hexadecimal number. -/
 def parseBytePiece (text : Bytes) : Option UInt8 :=
   match text.drop 3 with
-  | h :: l :: _ =>
-    match hexVal h, hexVal l with
-    | some a, some b => some (UInt8.ofNat (16 * a + b))
-    | _, _ => none
+  | h :: l :: _ => (hexPair h l).map UInt8.ofNat
   | _ => none
 
 def hexDigit (n : Nat) : UInt8 := if n < 10 then UInt8.ofNat (48 + n) else UInt8.ofNat (55 + n)
